@@ -9,7 +9,7 @@ CONSTANTS
   Titled = FALSE
   Buf = 1
   Fixes = {"D1", "D14", "D2", "D18", "D19", "D20", "D21", "D23"}
-  ColorOnly = FALSE
+  ColorOnly = TRUE
   ReplayLen = 8
-INVARIANTS RowsOnceInOrder Lag PrefixStable LanguageByName Replay
+INVARIANTS LineForLine
 CHECK_DEADLOCK FALSE
